@@ -57,7 +57,7 @@ Definition ack_inv (present_ok : bool) (ctx code : N) (pr : option props) : Prop
 
 Definition dec_inv (v : N) (b : body) : Prop :=
   match b with
-  | BConnack ver code sp pr => ver = 5 /\ code < 256 /\ exists p, pr = Some p /\ props_inv CONNACK p
+  | BConnack ver code sp pr => ver = v /\ code < 256 /\ oprops_inv v CONNACK pr
   | BPublish ver dup qos retain topic pid payload pr =>
       ver = v /\ qos <= 2 /\ negb ((qos =? 0) && dup) = true /\ istr_ok topic = true /\ impl_name topic = true
       /\ pid < 65536 /\ (qos = 0 -> pid = 0) /\ oprops_inv v PUBLISH pr
@@ -166,18 +166,21 @@ Proof.
 Qed.
 
 Lemma rt_connack : forall v code sp pr ty fl bytes,
-  dec_inv v (BConnack 5 code sp pr) ->
-  pack_body (BConnack 5 code sp pr) = Ok (ty, fl, bytes) -> len bytes < BIG ->
-  ty = CONNACK /\ fl = 0 /\ parse_connack bytes = Ok (BConnack 5 code sp pr).
+  dec_inv v (BConnack v code sp pr) ->
+  pack_body (BConnack v code sp pr) = Ok (ty, fl, bytes) -> len bytes < BIG ->
+  ty = CONNACK /\ fl = 0 /\ parse_connack v bytes = Ok (BConnack v code sp pr).
 Proof.
-  intros v code sp pr ty fl bytes (_ & Hc & p & -> & Hinv) Hpack Hlen.
+  intros v code sp pr ty fl bytes (_ & Hc & Hpr) Hpack Hlen.
   cbn [pack_body] in Hpack. apply ok3_inj in Hpack; destruct Hpack as (<- & <- & <-).
   split; [reflexivity|]. split; [reflexivity|].
-  unfold parse_connack. cbn [app N.eqb Pos.eqb].
+  unfold parse_connack. cbn [app].
   assert (Hsp : 0 <? N.land 127 (N.shiftr (b2n sp 1) 1) = false) by (destruct sp; reflexivity).
   rewrite Hsp. cbn [read_byte remap bind].
-  rewrite props_rt_nil; [|assumption|unfold BIG in Hlen; cbn [app N.eqb Pos.eqb] in Hlen; rewrite !len_cons in Hlen; lia].
-  cbn [bind]. destruct sp; reflexivity.
+  assert (Hsp1 : (b2n sp 1 =? 1) = sp) by (destruct sp; reflexivity). rewrite Hsp1.
+  unfold oprops_inv in Hpr. destruct (v =? 5).
+  - destruct Hpr as [p [-> Hinv]].
+    rewrite props_rt_nil; [reflexivity|assumption|unfold BIG in Hlen; cbn [app] in Hlen; rewrite !len_cons in Hlen; lia].
+  - subst pr. reflexivity.
 Qed.
 
 Lemma rt_suback : forall v pid payload pr ty fl bytes,
